@@ -30,6 +30,7 @@ var rpcmdExport = rule{kind: "export", target: "rpcmd_export.go", dest: "gcetcbe
 
 var perProp = map[string][]rule{
 	"C01": {rpcmdExport},
+	"C03": {rpcmdExport},
 	"C02": {rpcmdExport},
 	"C07": {rpcmdExport},
 	"C19": {rpcmdExport},
